@@ -34,6 +34,12 @@ func runDropErr(rc *RuleCtx) {
 				if used {
 					continue
 				}
+				if cal := call.Call.StaticCallee(); cal != nil && cal.Pkg != nil {
+					// accepted idiom: diagnostics printing (fmt.Fprint*/Print*, log.*) never carries a codec result
+					if pp := cal.Pkg.Pkg.Path(); pp == "fmt" || pp == "log" {
+						continue
+					}
+				}
 				rc.Examined++
 				name := "<dynamic>"
 				if cal := call.Call.StaticCallee(); cal != nil {
